@@ -156,9 +156,10 @@ def gen_ops(book, rng, n, p_set=0.4):
         return t, v, style()
     def bad_address():
         # what handle_cell rejects: a sheet title that does not exist, column letters that are none, a row that is no number / below 1
-        k = rng.randrange(5)
+        k = rng.randrange(7)
         s = rng.randrange(book.ns)
-        return [('No such sheet', 0, 0), ('No such sheet', 'A', '1'), (TITLES[s], 'A1', '1'), (TITLES[s], 'B', '0'), (TITLES[s], 'c', 'x')][k]
+        # ... or a sheet NUMBER the workbook does not have
+        return [('No such sheet', 0, 0), ('No such sheet', 'A', '1'), (TITLES[s], 'A1', '1'), (TITLES[s], 'B', '0'), (TITLES[s], 'c', 'x'), (book.ns + rng.randint(0, 3), 0, 0), (-1 - rng.randint(0, 2), 1, 1)][k]
     for _ in range(n):
         k = rng.random()
         if k < p_set * 0.12:
